@@ -104,6 +104,15 @@ def location_of(prog: Program, resolver: Resolver, fi: FuncInfo, e: ast.AST, _de
     if isinstance(e, ast.Attribute) and e.attr in REGISTRY_ATTRS:
         c = _class_of_receiver(prog, resolver, fi, e.value)
         return f"{c or '?'}.{e.attr}"
+    if isinstance(e, ast.Attribute) and isinstance(e.value, ast.Name) and (e.value.id in ("cls", "self") or e.value.id in prog.classes):
+        # any other class-level mutable container (a scratch dict shared by all calls)
+        c = _class_of_receiver(prog, resolver, fi, e.value)
+        ci = prog.classes.get(c) if c else None
+        if ci is not None and e.attr in ci.class_attrs:
+            v = getattr(ci.class_attrs[e.attr], "value", ci.class_attrs[e.attr])
+            if isinstance(v, (ast.Dict, ast.List, ast.Set, ast.DictComp, ast.ListComp, ast.SetComp)) or \
+                    (isinstance(v, ast.Call) and ast.unparse(v.func).split(".")[-1] in ("dict", "list", "set", "defaultdict", "OrderedDict", "deque", "Counter", "WeakValueDictionary")):
+                return f"{c}.{e.attr}"
     if isinstance(e, ast.Name):
         mi = prog.modules[fi.module]
         if e.id in module_mutable_globals(prog, fi.module) and e.id not in resolver._local_names(fi):
